@@ -45,6 +45,7 @@ From WP Require Import Model.Cbor Model.Http Model.StructHdr Model.Mice Model.Ce
 From WP Require Import Proofs.CborDecode Proofs.TotalityBase Proofs.TotalityMice
   Proofs.TotalityBundleSig Proofs.TotalitySize Proofs.TotalityAmplify Proofs.TotalityAll.
 From WP Require Proofs.MiceCommit.
+From WP Require Proofs.BundleWriteForm Proofs.BundleWriteCases Proofs.MiceEncode Proofs.BundleSigCover.
 Open Scope N_scope.
 
 Theorem total_def : forall (A : Type) (r : R A), total r <-> (r <> Panic /\ r <> Fuel).
@@ -203,6 +204,76 @@ Theorem verify_exchange_calls_total : forall (H256 : bytes -> bytes) (x : bexcha
   total (header_sha256 H256 x) /\ total (decode_all H256 D03 (bx_body x) dg 16384 512).
 Proof. exact TotalityBundleSig.verify_exchange_calls_total. Qed.
 Print Assumptions verify_exchange_calls_total.
+
+(* ---- the WRITERS that used to panic (not parsers; recorded here for that reason) --------- *)
+(* Bundle.WriteTo on a b1 bundle without primary URL dereferenced a nil *url.URL, and
+   an exchange URL that was not valid UTF-8 made EncodeTextString panic inside the
+   index callback.  Both are errors now: WriteTo is total - never Panic, never Fuel. *)
+Theorem b_write_never_fuel : forall b : bundle, b_write b <> Fuel.
+Proof. exact BundleWriteCases.write_never_fuel. Qed.
+Print Assumptions b_write_never_fuel.
+
+Theorem b_write_never_panic : forall b : bundle, b_write b <> Panic.
+Proof. exact BundleWriteCases.b_write_never_panic. Qed.
+Print Assumptions b_write_never_panic.
+
+Theorem b_write_total : forall b : bundle, total (b_write b).
+Proof.
+  intros b. apply total_def. split;
+    [apply BundleWriteCases.b_write_never_panic|apply BundleWriteCases.write_never_fuel].
+Qed.
+Print Assumptions b_write_total.
+
+(* the characterisation that used to describe the panic; its right-hand side is
+   contradictory now (urls_ok_no_index_panic) *)
+Theorem b_write_panic_iff : forall b : bundle,
+  b_write b = Panic <->
+  BundleWriteForm.headers_ok b = true /\ BundleWriteForm.urls_ok b = true /\ BundleWriteCases.IndexPanics b.
+Proof. exact BundleWriteCases.write_panic_iff. Qed.
+Print Assumptions b_write_panic_iff.
+
+Theorem urls_ok_no_index_panic : forall b : bundle,
+  BundleWriteForm.urls_ok b = true -> ~ BundleWriteCases.IndexPanics b.
+Proof. exact BundleWriteCases.urls_ok_no_index_panic. Qed.
+Print Assumptions urls_ok_no_index_panic.
+
+Theorem b_write_b1_no_primary_err : forall b : bundle,
+  b_ver b = BV1 -> b_primary b = None -> b_write b = Err.
+Proof. exact BundleWriteCases.b_write_b1_no_primary_err. Qed.
+Print Assumptions b_write_b1_no_primary_err.
+
+(* MICE Encode with record size 0 was an integer division by zero; AddPayloadIntegrity
+   passed any record size on.  Both return errors now. *)
+Theorem mice_encode_total : forall (H : bytes -> bytes) (d : draft) (rs : N) (p : bytes),
+  total (encode H d rs p).
+Proof. intros H d rs p. apply total_def. apply MiceEncode.encode_never_panics. Qed.
+Print Assumptions mice_encode_total.
+
+Theorem mice_encode_rs0_err : forall (H : bytes -> bytes) (d : draft) (p : bytes),
+  encode H d 0 p = Err.
+Proof. exact MiceEncode.encode_rs0_err. Qed.
+Print Assumptions mice_encode_rs0_err.
+
+Theorem add_payload_integrity_total : forall (H256 : bytes -> bytes) (x : bexchange) (rs : N),
+  total (add_payload_integrity H256 x rs).
+Proof.
+  intros H256 x rs. apply either_total.
+  destruct (BundleSigCover.add_payload_integrity_ok_or_err H256 x rs) as [E|E]; rewrite E; eauto.
+Qed.
+Print Assumptions add_payload_integrity_total.
+
+Example ex_writers_no_panic :
+  let b := {| b_ver := BV1; b_primary := None; b_manifest := None; b_sigs := None;
+              b_exchanges := [{| bx_url := s2b "https://example.com/"; bx_status := 200%Z;
+                                 bx_hdr := [(s2b "content-type", [s2b "text/html"])]; bx_body := [60; 112; 62] |}];
+              b_taint := false |} in
+  b_ver b = BV1 /\ b_primary b = None /\ b_write b = Err /\
+  (* an exchange URL that is not valid UTF-8 *)
+  b_write {| b_ver := BV2; b_primary := None; b_manifest := None; b_sigs := None;
+             b_exchanges := [{| bx_url := [97; 58; 255]; bx_status := 200%Z; bx_hdr := []; bx_body := [] |}];
+             b_taint := false |} = Err /\
+  encode sha256 D03 0 [1; 2; 3] = Err.
+Proof. cbv zeta. repeat split; vm_compute; reflexivity. Qed.
 
 (* ---- integrity-block detection (C07) ------------------------------------------------------ *)
 Theorem obtain_total : forall file : bytes, total (obtain file).
